@@ -1,0 +1,149 @@
+//go:build verif
+
+// Add-only verification hook for property C11 (sparse container coherence).
+// Read-only access to the private state of the sparse vector types.
+package autodiff
+
+import "sort"
+import "unsafe"
+
+// VerifC11Entry is one entry of the private value map of a sparse vector.
+type VerifC11Entry struct {
+  Key   int
+  Nil   bool    // nil placeholder (no scalar behind the entry)
+  Value float64 // stored value (0 for a nil placeholder)
+  Cell  uintptr // identity of the stored scalar (0 for a nil placeholder)
+}
+
+// VerifC11State is the private state of a sparse vector: map entries sorted by
+// key, the keys of the AVL index in iteration order, and n.
+type VerifC11State struct {
+  Entries []VerifC11Entry
+  Index   []int
+  N       int
+  Sparse  bool
+}
+
+func verifC11Index(t *AvlTree) []int {
+  r := []int{}
+  var walk func(n *AvlNode)
+  walk = func(n *AvlNode) {
+    if n == nil {
+      return
+    }
+    walk(n.Left)
+    r = append(r, n.Value)
+    walk(n.Right)
+  }
+  walk(t.Root)
+  return r
+}
+
+// VerifC11Dump returns the private state of v; Sparse is false when v is not
+// one of the sparse vector types.
+func VerifC11Dump(v interface{}) VerifC11State {
+  s := VerifC11State{}
+  switch x := v.(type) {
+  case *SparseInt8Vector:
+    s.Sparse = true
+    s.N = x.n
+    s.Index = verifC11Index(&x.AvlTree)
+    for k, e := range x.values {
+      if e.ptr == nil {
+        s.Entries = append(s.Entries, VerifC11Entry{Key: k, Nil: true})
+      } else {
+        s.Entries = append(s.Entries, VerifC11Entry{Key: k, Value: float64(*e.ptr), Cell: uintptr(unsafe.Pointer(e.ptr))})
+      }
+    }
+  case *SparseInt16Vector:
+    s.Sparse = true
+    s.N = x.n
+    s.Index = verifC11Index(&x.AvlTree)
+    for k, e := range x.values {
+      if e.ptr == nil {
+        s.Entries = append(s.Entries, VerifC11Entry{Key: k, Nil: true})
+      } else {
+        s.Entries = append(s.Entries, VerifC11Entry{Key: k, Value: float64(*e.ptr), Cell: uintptr(unsafe.Pointer(e.ptr))})
+      }
+    }
+  case *SparseInt32Vector:
+    s.Sparse = true
+    s.N = x.n
+    s.Index = verifC11Index(&x.AvlTree)
+    for k, e := range x.values {
+      if e.ptr == nil {
+        s.Entries = append(s.Entries, VerifC11Entry{Key: k, Nil: true})
+      } else {
+        s.Entries = append(s.Entries, VerifC11Entry{Key: k, Value: float64(*e.ptr), Cell: uintptr(unsafe.Pointer(e.ptr))})
+      }
+    }
+  case *SparseInt64Vector:
+    s.Sparse = true
+    s.N = x.n
+    s.Index = verifC11Index(&x.AvlTree)
+    for k, e := range x.values {
+      if e.ptr == nil {
+        s.Entries = append(s.Entries, VerifC11Entry{Key: k, Nil: true})
+      } else {
+        s.Entries = append(s.Entries, VerifC11Entry{Key: k, Value: float64(*e.ptr), Cell: uintptr(unsafe.Pointer(e.ptr))})
+      }
+    }
+  case *SparseIntVector:
+    s.Sparse = true
+    s.N = x.n
+    s.Index = verifC11Index(&x.AvlTree)
+    for k, e := range x.values {
+      if e.ptr == nil {
+        s.Entries = append(s.Entries, VerifC11Entry{Key: k, Nil: true})
+      } else {
+        s.Entries = append(s.Entries, VerifC11Entry{Key: k, Value: float64(*e.ptr), Cell: uintptr(unsafe.Pointer(e.ptr))})
+      }
+    }
+  case *SparseFloat32Vector:
+    s.Sparse = true
+    s.N = x.n
+    s.Index = verifC11Index(&x.AvlTree)
+    for k, e := range x.values {
+      if e.ptr == nil {
+        s.Entries = append(s.Entries, VerifC11Entry{Key: k, Nil: true})
+      } else {
+        s.Entries = append(s.Entries, VerifC11Entry{Key: k, Value: float64(*e.ptr), Cell: uintptr(unsafe.Pointer(e.ptr))})
+      }
+    }
+  case *SparseFloat64Vector:
+    s.Sparse = true
+    s.N = x.n
+    s.Index = verifC11Index(&x.AvlTree)
+    for k, e := range x.values {
+      if e.ptr == nil {
+        s.Entries = append(s.Entries, VerifC11Entry{Key: k, Nil: true})
+      } else {
+        s.Entries = append(s.Entries, VerifC11Entry{Key: k, Value: float64(*e.ptr), Cell: uintptr(unsafe.Pointer(e.ptr))})
+      }
+    }
+  case *SparseReal32Vector:
+    s.Sparse = true
+    s.N = x.n
+    s.Index = verifC11Index(&x.AvlTree)
+    for k, e := range x.values {
+      if e == nil {
+        s.Entries = append(s.Entries, VerifC11Entry{Key: k, Nil: true})
+      } else {
+        s.Entries = append(s.Entries, VerifC11Entry{Key: k, Value: float64(e.Value), Cell: uintptr(unsafe.Pointer(e))})
+      }
+    }
+  case *SparseReal64Vector:
+    s.Sparse = true
+    s.N = x.n
+    s.Index = verifC11Index(&x.AvlTree)
+    for k, e := range x.values {
+      if e == nil {
+        s.Entries = append(s.Entries, VerifC11Entry{Key: k, Nil: true})
+      } else {
+        s.Entries = append(s.Entries, VerifC11Entry{Key: k, Value: float64(e.Value), Cell: uintptr(unsafe.Pointer(e))})
+      }
+    }
+  }
+  sort.Slice(s.Entries, func(i, j int) bool { return s.Entries[i].Key < s.Entries[j].Key })
+  return s
+}
